@@ -325,9 +325,10 @@ PEG_TB = TB_COMMON + [
     "AST construction (parsing.rs) and the analyzer are not modelled here: they are observed under catch_unwind and a 10 s limit",
 ]
 PROPS["C12"] = dict(
-    level="proof", runner="C12", uses_gen=True, model_files=["Base.v", "Peg.v", "gen/Grammar.v"], proof_files=["Peg_proofs.v"], check_files=["Peg_check.v"],
-    theorems=["C12_grammar_well_formed", "C12_matches_are_prefixes", "C12_verdict_independent_of_fuel", "C12_verdict_unique"],
-    partial=["the theorem about the current grammar is its well-formedness (no left recursion, no nullable repetition, no undefined rule), computed inside Coq on the generated grammar; that well-formedness implies termination of every run is the classical PEG result and is not re-proved here, the interpreter's fuel never ran out on any generated text (clause 1 fails otherwise)",
+    level="proof", runner="C12", uses_gen=True, model_files=["Base.v", "Peg.v", "gen/Grammar.v"], proof_files=["Peg_proofs.v", "Peg_term.v"], check_files=["Peg_check.v"],
+    theorems=["C12_grammar_well_formed", "C12_matches_are_prefixes", "C12_verdict_independent_of_fuel", "C12_verdict_unique",
+              "C12_checked_grammar_terminates", "C12_every_parse_terminates"],
+    partial=["the grammar of the current tree (generated from tx3.pest on every run) is proved to decide every text: recursive descent over it terminates for every input, start rule and position (C12_every_parse_terminates, from three certificates computed and checked inside Coq: nullable rules closed, a rank decreasing along first-position calls, WHITESPACE / COMMENT self-contained), and the answer does not depend on the fuel; that pest's generated parser is this interpreter is the per-text tie (clause 1)",
              "panic-freedom of the AST construction and of the analyzer is observed on the generated texts (clauses 121-123), not proved"],
     trusted_base=PEG_TB, assumptions=["texts up to 2500 bytes, nesting up to 64"],
     keep_ids=_only(lambda i: i == 1 or 120 <= i < 130),
